@@ -20,6 +20,7 @@ func init() {
 		Quick: []ruleDef{
 			{"HND-AGREE", 15, ruleHndAgree},
 			{"PEEP-BOUND", 15, rulePeepBound},
+			{"PEEP-NEGZERO", 1, rulePeepNegZero},
 			{"PEEP-DEPTH", 1, rulePeepDepth},
 			{"PEEP-SPLIT", 20, rulePeepSplit},
 			{"PEEP-GLUE", 408, rulePeepGlue},
@@ -526,4 +527,43 @@ func (ly *layouts) spanned(v *layView, jf map[string]string) []bool {
 		}
 	}
 	return spanned
+}
+
+// PEEP-NEGZERO: a rewrite that replaces `x OP c` by the opposite operation with -c (SUB c by
+// an increment of -c) is an identity of integers and of non-zero c only: c is an integer
+// literal, and the integer -0 is +0, so for c = 0 the rewritten code adds +0 where the
+// original subtracted 0 — for a float x = -0.0 that is +0.0 instead of -0.0 (and 1/x flips
+// from -Inf to +Inf) with the optimiser on only. Such a rewrite must exclude c = 0.
+func rulePeepNegZero(c *Ctx, r *R) {
+	p, err := c.peephole()
+	if err != nil {
+		r.undecided("doOptimize", "-", err.Error())
+		return
+	}
+	n := 0
+	for _, rw := range p.Rewrites {
+		if rw.Lit == nil {
+			continue
+		}
+		for _, f := range []string{"A", "B", "C"} {
+			v := litField(rw.Lit, f)
+			if v == nil || !strings.HasPrefix(v.String(), "<-") {
+				continue
+			}
+			// the negated operand: <-I0.A>
+			src := strings.TrimSuffix(strings.TrimPrefix(v.String(), "<-"), ">")
+			n++
+			excl := false
+			for _, nr := range rw.Narrow {
+				if nr == src+" != 0" || nr == "0 != "+src {
+					excl = true
+				}
+			}
+			r.check(excl, rw.Key()+" "+f, c.Pos(rw.Clause), "the operand "+src+" = 0 is excluded from the fold",
+				fmt.Sprintf("the window %v is folded into %s with the negated operand -%s also for %s = 0: `z := 0.0; z = -z; w := z - 0` gives -0 with the optimiser off and 0 with it on (1/w: -Inf and +Inf)", rw.Window, strings.TrimPrefix(rw.Produces, "code"), src, src))
+		}
+	}
+	if n == 0 {
+		r.ok("negated operands", "no rewrite negates an operand")
+	}
 }
